@@ -1,7 +1,7 @@
 (* DispPacket.v -- correspondence entries of the packet layer: how the model computes each
    projected outcome, and how the properties' executable statements (Spec.v, CrcSpec.v) judge
    an implementation outcome. *)
-Require Import MB.GoSem MB.Val MB.CrcModel MB.CrcSpec MB.Spec MB.PacketModel.
+Require Import MB.GoSem MB.Val MB.Entry MB.CrcModel MB.CrcSpec MB.Spec MB.PacketModel.
 From Coq Require Import String.
 Notation length := List.length (only parsing).
 Open Scope N_scope.
@@ -620,3 +620,55 @@ Definition verdict_classify_enc_C18 (a : list val) (out : val) : N :=
       end
   | _ => NOT_JUDGED
   end.
+
+(* ---------- the table of this layer ---------- *)
+Open Scope string_scope.
+Open Scope N_scope.
+(* ---- CRC16 itself (C03 a) ---- *)
+Definition run_crc16 (a : list val) : val :=
+  match a with [VB l] => vN (crc16 l) | _ => v_bad end.
+Definition verdict_crc16 (p : N) (a : list val) (out : val) : N :=
+  match a with
+  | [VB l] => if val_eqb out (vN (spec_crc16 l)) then HOLDS else VIOLATES
+  | _ => NOT_JUDGED
+  end.
+
+Definition ctor_entry (nm : string) : entry :=
+  {| e_name := nm; e_run := run_ctor nm;
+     e_verdict := fun p a o => if p =? 1 then verdict_ctor_C01 nm a o
+                               else if p =? 3 then verdict_ctor_C03 nm a o else NOT_JUDGED |}.
+
+Definition table_packet : list entry :=
+  [ {| e_name := "crc16"; e_run := run_crc16; e_verdict := verdict_crc16 |};
+    ctor_entry "new_read"; ctor_entry "new_wcoil"; ctor_entry "new_wreg"; ctor_entry "new_wcoils";
+    ctor_entry "new_wregs"; ctor_entry "new_srvid"; ctor_entry "new_rw";
+    {| e_name := "rt_req"; e_run := run_rt_req;
+       e_verdict := fun p a o => if p =? 9 then verdict_rt_req_C09 a o else NOT_JUDGED |};
+    {| e_name := "parse1"; e_run := run_parse1;
+       e_verdict := fun p a o => if p =? 9 then verdict_parse1_C09 a o
+                                 else if p =? 3 then verdict_parse1_C03 a o
+                                 else if p =? 2 then verdict_parse1_C02 a o else NOT_JUDGED |};
+    {| e_name := "parse3"; e_run := run_parse3;
+       e_verdict := fun p a o => if p =? 10 then verdict_parse3_C10 a o else NOT_JUDGED |};
+    {| e_name := "resp_bytes"; e_run := run_resp_bytes;
+       e_verdict := fun p a o => if p =? 3 then verdict_bytes_C03 a o else NOT_JUDGED |};
+    {| e_name := "exc_bytes"; e_run := run_exc_bytes;
+       e_verdict := fun p a o => if p =? 3 then verdict_bytes_C03 a o else NOT_JUDGED |};
+    {| e_name := "rt_resp"; e_run := run_rt_resp;
+       e_verdict := fun p a o => if p =? 2 then verdict_rt_resp_C02 a o else NOT_JUDGED |};
+    {| e_name := "fc17"; e_run := run_fc17;
+       e_verdict := fun p a o => if p =? 2 then verdict_fc17_C02 a o else NOT_JUDGED |};
+    {| e_name := "exc"; e_run := run_exc;
+       e_verdict := fun p a o => if p =? 2 then verdict_exc_C02 a o else NOT_JUDGED |};
+    {| e_name := "coils_to_bytes"; e_run := run_coils_to_bytes;
+       e_verdict := fun p a o => if (p =? 1) || (p =? 11) then verdict_coils_C01 a o else NOT_JUDGED |};
+    {| e_name := "is_coil_set"; e_run := run_is_coil_set;
+       e_verdict := fun p a o => if p =? 11 then verdict_is_coil_set_C11 a o else NOT_JUDGED |};
+    {| e_name := "coil_readback"; e_run := run_coil_readback;
+       e_verdict := fun p a o => if p =? 11 then verdict_coil_readback_C11 a o else NOT_JUDGED |};
+    {| e_name := "classify"; e_run := run_classify;
+       e_verdict := fun p a o => if p =? 18 then verdict_classify_C18 a o else NOT_JUDGED |};
+    {| e_name := "classify_enc"; e_run := run_classify_enc;
+       e_verdict := fun p a o => if p =? 18 then verdict_classify_enc_C18 a o else NOT_JUDGED |}
+  ].
+
